@@ -51,4 +51,8 @@ IndInv ==
 
 IndInit == IndInv /\ MaxViewConstraint
 Target == TypeOK /\ InvTwoBlocksAccepted /\ InvFaultNodesCount
+
+\* Non-vacuity probe, expected to be VIOLATED: Apalache must exhibit a state of IndInit
+\* in which two nodes have accepted a block (so IndInit is not empty / trivial).
+VacuityProbe == Cardinality({r \in RM: rmState[r].type = "blockAccepted"}) < 2
 =============================================================================
